@@ -1,56 +1,113 @@
 """Configuration of ./check for C11 (see tools/props.py)."""
-ENTRY = {'coq_dir': 'C11',
- 'harness': 'c11',
+ENTRY = {'assumptions': ['events arrive as the TransportService contract allows (C08): established/closed alternate per peer, substream results only for '
+                 'requested ids on the live connection; these are the guards of Model.main_handler, spelled out as `enabled`; the guard for '
+                 'handshake events is discharged by the component model (C11_hs_events_only_for_held_substreams)',
+                 'the ledger theorem excludes finding class 3 (class3_step)',
+                 "bounded-channel model: while the loop is parked no other event is scheduled; tokio's mpsc semaphore serves waiting senders in "
+                 'arrival order; C11_capacity_only_delays: no poll is cut short by the capacity (poll_cut)'],
  'cases': {'quick': 1500, 'thorough': 40000},
+ 'clause_map': [['for each peer the user sees stream-opened and stream-closed events strictly alternating',
+                 'C11_alternation (all histories), C11_lazy_alternation (late-polling user, all schedules), C11_user_view_is_protocol_view, '
+                 'C11_alternation_before_fix_refuted',
+                 'eager and lazy streams: oracle `grammar` on every trace; corpus w1, w3, w11'],
+                ['receives notifications only between the two',
+                 'C11_alternation / C11_lazy_alternation (UNotif clause), C11_gate_is_newest_sink, C11_lazy_notification_in_its_period, '
+                 'C11_lazy_queue_lifecycle_only',
+                 'Notify/NotifyDie events; stream tag of every delivered notification (oracle ntags_ok); corpus w4, w10, w12; gen_lstale'],
+                ['can send notifications only between the two',
+                 'C11_send_gate, C11_send_gate_closed, C11_stale_sink_errors',
+                 'send operations (kinds 20-24), wire frames per stream period (oracle clause 8)'],
+                ['never sees an open-failure for a stream that is currently open',
+                 'C11_alternation (UFail clause), C11_timer_only_cancels_waiting, C11_no_stale_timer_kill',
+                 'oracle `grammar`; timers fired by hook and by real sleeping (w7-w9, w13)'],
+                ['a request to open a stream to a connected peer with no negotiation in progress is answered by exactly one of opened or '
+                 'open-failure',
+                 'C11_open_answered, C11_quiescent_nothing_owed, C11_at_most_one_answer, C11_no_dead_substream_id, '
+                 'C11_open_answered_before_fix_refuted; exception: C11_open_answered_class3_refuted (finding class 3)',
+                 'oracle clauses 5 (ans, also per peer of a batch), 6 (leave), 7 (owed); corpus w2, w5, w6'],
+                ['an inbound stream is opened only after the user accepted it (or auto-accept applies)',
+                 'C11_opened_needs_accepted_inbound, C11_accepted_only_by_accept, C11_inbound_needs_accept',
+                 'oracle clause 3 (acc); both auto_accept settings'],
+                ['when the connection to a peer is lost an open stream is reported closed',
+                 'C11_closed_on_disconnect, C11_closed_on_user_close (every reachable state, same step)',
+                 'oracle clause 4 (cl), no slow-close escape any more'],
+                ['no interleaving makes the protocol panic or stop serving other peers',
+                 'C11_no_stuck, C11_no_stuck_feasible, C11_guards_are_the_environment, C11_lazy_no_stuck, C11_isolation, C11_runs_are_reachable; '
+                 'handshake events only for held substreams: C11_hs_events_only_for_held_substreams, C11_hs_negotiated_hands_out',
+                 'catch_unwind around every step (stuck marker 2), per-peer dump diff, oracle clause 1 (iso); HandshakeService stream (oracle '
+                 'hcheck)'],
+                ['bounded user event channel / late-polling user (quantifier: all schedules)',
+                 'C11_lazy_alternation, C11_lazy_no_stuck, C11_event_channel_no_loss, C11_event_channel_step, C11_poll_delivers_oldest, '
+                 'C11_capacity_only_delays',
+                 'lazy stream (kind 25 polls), channel fill and parked flag diffed']],
  'consts': [],
+ 'coq_dir': 'C11',
+ 'harness': 'c11',
+ 'level_note': "Sending: channel capacities / clogging are C12's; receiving: the handle gate, the stream identifier and the event order. In the "
+               "bounded-channel model a parked handler's effects are applied when it parks and only its post-await calls are held back (nothing else "
+               'runs meanwhile, the protocol state is not dumped while parked); one handle.next() sees only the events that are inside the channel '
+               '(poll_events). The main model treats the HandshakeService as membership bits and lets a handshake event happen at any time for a '
+               'held substream (over-approximation: the stale-ready behaviour of the real service is covered by its theorems); the component model '
+               'HSModel.v is tied to the real service by its own case stream. Defects repaired in the repo (fix: commits): stale shutdown notice, '
+               'superseded validation request, failed substream id adopted by the next open request (former class 2), NotificationStreamClosed '
+               'reported late by the Connection task only (former class 1); finding recorded: class 3 (pinned by an upstream integration test); '
+               'observations (outside the property text): a stale 5 s timer cancels a newer attempt early; while a failed substream id is still '
+               'remembered (PeerState::Closed{pending_open}) inbound substreams are refused until the user opens or the peer reconnects; '
+               'HandshakeService::remove_* leave a completed handshake queued in `ready`, which pop_event later matches with a NEW substream of the '
+               'same peer and direction (Negotiated without any I/O on it; the unread handshake of the new substream is later delivered as a '
+               "notification: C12's subject).",
+ 'level_text': 'Proof about the model (all configurations, unbounded histories), tied to the Rust code by a per-event differential run. Event '
+               'grammar for EVERY history, slow Connection tasks included (C11_alternation: Opened/Closed alternate, no OpenFailure and every '
+               'NotificationReceived between the two; invariant C11_user_view_is_protocol_view; C11_closed_on_disconnect, C11_closed_on_user_close '
+               'in every reachable state; C11_delivered_close_kills_nothing) since the repair of finding class 1 (before-fix refutation about the '
+               'old model kept in coq/C11/Before.v), and for the late-polling user behind a bounded event channel, for every capacity and every '
+               'schedule of events and polls (C11_lazy_alternation). No stuck state (C11_no_stuck, explicit environment predicate `enabled`, '
+               'C11_lazy_no_stuck); isolation between peers (C11_isolation); inbound streams only after an accept '
+               '(C11_opened_needs_accepted_inbound, C11_accepted_only_by_accept, C11_inbound_needs_accept); the open-request ledger outside finding '
+               'class 3 (C11_open_answered, C11_quiescent_nothing_owed, C11_at_most_one_answer; the exclusion is shown necessary), no dead substream '
+               'id in any reachable state (C11_no_dead_substream_id, repair of finding class 2 with before-fix refutation); the sending side '
+               '(C11_send_gate, C11_send_gate_closed, C11_stale_sink_errors); received notifications and the stream identifier '
+               '(C11_gate_is_newest_sink, C11_lazy_notification_in_its_period, C11_lazy_queue_lifecycle_only); the 5 s timers as armed/fired state '
+               '(C11_timers_fire_once, C11_waiting_attempt_has_timer, C11_timer_only_cancels_waiting, C11_no_stale_timer_kill; '
+               'C11_stale_timer_cancels_newer_attempt_refuted is an observation); the bounded user event channel (C11_event_channel_no_loss, '
+               'C11_event_channel_step, C11_poll_delivers_oldest, C11_capacity_only_delays); the HandshakeService as a component (HSModel.v): '
+               'handshake events only for substreams it holds (C11_hs_events_only_for_held_substreams: the guard hsI/hsO of the main model as a '
+               'theorem of the component), C11_hs_negotiated_hands_out, C11_hs_error_keeps_substream, C11_hs_timeout_fails, C11_hs_keys_unique, '
+               'C11_hs_removed_is_silent; C11_hs_stale_ready_refuted is an observation.',
  'rule': 'seeded histories of <= 70 (quick) / <= 150 (thorough) events over <= 3 peers with both auto-accept settings, dialing on/off, '
-         'dialable/undialable peers: per-peer scripts that open a stream (user-initiated, remote-initiated, simultaneous) and end it (user '
-         'close, remote close, disconnect, slow closes), interleaved at random, with 0-100 % random noise events, lost and swapped steps; '
-         'events: connection established/closed, inbound/outbound substream, open failure, dial failure, handshake success/failure per '
-         'direction, validation accept/reject (also stale, duplicated and superseded), negotiation timer (hook-fired; real 5 s expiry in '
-         'thorough-tier corpus cases), remote notifications (also a last one right before the remote closes), user open/close/force-close, '
-         'sends through the handle and through a kept NotificationSink clone in every state (before Opened, while open, after Closed, '
-         'never opened) with the frames written to the substreams observed, remote close of an open stream, delayed and released substream '
-         'closes, dead command channel. Three quarters of the cases run with a user who drains the handle after every event: the real '
-         'NotificationProtocol::next_event is polled once per ready event and after every event the user events, return values, wire '
-         'frames, the calls on the TransportService and a dump (peer state incl. sub-states and pending substream id, handshake-service '
-         "membership, the handle's peers/pending-validation gate, pending_outbound, live Connection tasks, timers armed so far) are "
-         'compared with the extracted Coq model. One quarter runs with a user event channel of capacity 1-5 and a user who polls the '
-         'handle only now and then (kind 25): the parked next_event() future is kept alive, deliveries, service calls, the handle gate, '
-         'the channel fill and the parked flag are compared after every step; a case is non-trivial when its trace has >= 100 numbers',
- 'trusted_base': ['the scripted byte carrier (SubstreamType::Verif) stands for yamux/TCP substreams: reads, flushes and shutdowns complete '
-                  'exactly when the case says so',
-                  'Connection tasks are polled by the harness (collecting Executor); in the eager cases the user drains the '
-                  'NotificationHandle after every event',
-                  'the 10 s handshake timeout of HandshakeService and the keep-alive downgrade of TransportService are not exercised (a '
-                  'handshake timeout is the same NegotiationError event as a failed handshake); the 5 s timers are futures_timer (real '
-                  'time): they are fired through a hook in random cases and by really sleeping in thorough-tier corpus cases',
-                  'the bounded-channel driver keeps a parked next_event() future alive through an unsafe self-reference and tells a parked '
-                  'handler from an idle poll by input-queue lengths (cfg(verif) hook code)',
-                  'channel capacities of the per-stream sync/async notification channels are not modelled (C12); the lazy-user model '
-                  'leaves out send operations'],
- 'level_text': 'Proof about the model (all configurations, unbounded histories), tied to the Rust code by a per-event differential run. No '
-               'stuck state (C11_no_stuck, explicit environment predicate `enabled`, C11_lazy_no_stuck for the bounded channel); isolation '
-               'between peers (C11_isolation); event grammar incl. NotificationReceived under prompt closes (C11_alternation; class 1 '
-               'otherwise); inbound streams only after an accept (C11_opened_needs_accepted_inbound, C11_accepted_only_by_accept, '
-               'C11_inbound_needs_accept); the open-request ledger outside finding classes 2 and 3 (C11_open_answered, '
-               'C11_quiescent_nothing_owed, C11_at_most_one_answer, both exclusions shown necessary); Closed on disconnect / user close; '
-               'the sending side (C11_send_gate: a frame reaches the wire only in a send operation, with that message, through the sink of '
-               'a running task of that peer, through the handle only while the gate is open and only into the period whose sink the handle '
-               'holds; C11_send_gate_closed, C11_stale_sink_errors); the 5 s timers as armed/fired state (C11_timers_fire_once, '
-               'C11_waiting_attempt_has_timer, C11_timer_only_cancels_waiting, C11_no_stale_timer_kill; '
-               'C11_stale_timer_cancels_newer_attempt_refuted is an observation); the bounded user event channel with a late-polling user '
-               '(C11_event_channel_no_loss, C11_event_channel_step, C11_poll_delivers_oldest, C11_capacity_only_delays).',
- 'level_note': "Sending: channel capacities / clogging are C12's; receiving: only the handle gate and the event order. In the "
-               "bounded-channel model a parked handler's effects are applied when it parks and only its post-await calls are held back "
-               '(nothing else runs meanwhile, the protocol state is not dumped while parked). Defects repaired: stale shutdown notice, '
-               'superseded validation request (fix: commits); findings recorded: classes 1-3; observations: a stale 5 s timer cancels a '
-               'newer attempt early; with a late-polling user a notification of stream period 1 can be handed out in period 2 (the handle '
-               'only checks `peers.contains_key`).',
- 'assumptions': ['events arrive as the TransportService contract allows (C08): established/closed alternate per peer, substream results '
-                 'only for requested ids on the live connection, handshake events only for substreams handed to the HandshakeService; '
-                 'these are the guards of Model.main_handler, spelled out as `enabled`',
-                 'alternation additionally assumes Connection tasks close promptly (no Gate / gated TaskDie / gated NotifyDie event)',
-                 'the ledger theorem excludes finding class 2 (class2_step) and class 3 (class3_step)',
-                 "bounded-channel model: while the loop is parked no other event is scheduled; tokio's mpsc semaphore serves waiting "
-                 'senders in arrival order']}
+         'dialable/undialable peers: per-peer scripts that open a stream (user-initiated, remote-initiated, simultaneous) and end it (user close, '
+         'remote close, disconnect, slow closes of every kind: the Connection task of a closed stream finishes after a new stream to the peer was '
+         'set up, with and without a NotificationSink clone kept by the user, the old task alone finishing while the new stream is closing too), '
+         'interleaved at random, with 0-100 % random noise events, lost and swapped steps; events: connection established/closed, inbound/outbound '
+         'substream, open failure with every SubstreamError variant, dial failure, handshake success/failure per direction, validation accept/reject '
+         '(also stale, duplicated and superseded), negotiation timer (hook-fired; real 5 s expiry and the real 10 s NEGOTIATION_TIMEOUT of the '
+         'HandshakeService in thorough-tier corpus cases), remote notifications (also a last one right before the remote closes; the payload names '
+         'the stream), user open/close/force-close, open_substream_batch / close_substream_batch for several peers in one command (the order the '
+         'implementation took the peers in is read from it), sends through the handle and through a kept NotificationSink clone in every state '
+         '(before Opened, while open, after Closed, never opened) with the frames written to the substreams observed, an open stream ended by the '
+         'remote closing, an error frame or a write error, delayed and released substream closes (all tasks of a peer, or all but its newest), '
+         'command channel of the connection closed or clogged. Of the protocol cases three quarters run with a user who drains the handle after '
+         'every event: the real NotificationProtocol::next_event is polled once per ready event and after every event the user events, return '
+         'values, wire frames, the calls on the TransportService and a dump (peer state incl. sub-states and pending substream id, handshake-service '
+         "membership, the handle's peers/pending-validation gate, pending_outbound, live Connection tasks, timers armed so far) are compared with "
+         'the extracted Coq model. One quarter runs with a user event channel of capacity 1-7 and a user who polls the handle only now and then '
+         '(kind 25; one eighth of these are built around notifications left over from an earlier stream period): the parked next_event() future is '
+         'kept alive, deliveries (with the stream tag of every notification), service calls, the handle gate, the channel fill and the parked flag '
+         'are compared after every step. 8 % of all cases (first number 7000) drive the real HandshakeService on its own: the calls '
+         'NotificationProtocol makes on it, carrier events per substream (handshake frame arrives, remote closes, writes fail, flushes complete), '
+         'expiry of single negotiation timers, polls; the order in which poll_next visits its map is read from the implementation before every poll; '
+         'results, map membership and queue length are compared after every operation; a case is non-trivial when its trace has >= 100 numbers',
+ 'trusted_base': ['the scripted byte carrier (SubstreamType::Verif) stands for yamux/TCP substreams: reads, flushes and shutdowns complete exactly '
+                  'when the case says so; substream closes inside protocol handlers complete at once',
+                  'Connection tasks are polled by the harness (collecting Executor); in the eager cases the user drains the NotificationHandle after '
+                  'every event',
+                  'the keep-alive downgrade of TransportService is not exercised; the 5 s timers and the 10 s handshake timeout are futures_timer '
+                  '(real time): fired through hooks in random cases and by really sleeping in thorough-tier corpus cases',
+                  'the bounded-channel driver keeps a parked next_event() future alive through an unsafe self-reference and tells a parked handler '
+                  'from an idle poll by input-queue lengths (cfg(verif) hook code)',
+                  'channel capacities of the per-stream sync/async notification channels are not modelled (C12); the lazy-user model leaves out send '
+                  'operations and batch commands; try_ variants of the handle API, set_handshake and the exit paths of the event loop (handle '
+                  'dropped, service closed) are not exercised; of the results of TransportService::dial only Ok (command sent) and '
+                  'NoAddressAvailable are produced',
+                  'a batch command is the sequence of its single-peer commands (each touches only its own peer: C11_isolation): expanded by the '
+                  'Glue, not a constructor of the model']}
